@@ -162,8 +162,33 @@ func intExpr(e ast.Expr, consts map[string]int64) int64 {
 // ------------------------------------------------------------------ builder DSL -> Lean `Sel`
 
 type dsl struct {
-	ssb  string              // name of the SelectorSpecBuilder variable
-	vars map[string]ast.Expr // local `x := <spec expression>` definitions
+	ssb    string              // name of the SelectorSpecBuilder variable
+	vars   map[string]ast.Expr // local `x := <spec expression>` definitions
+	consts map[string]int64    // package-level integer constants of the file
+}
+
+// package-level `const name = <int>` declarations
+func intConsts(f *ast.File) map[string]int64 {
+	out := map[string]int64{}
+	for _, d := range f.Decls {
+		gd, ok := d.(*ast.GenDecl)
+		if !ok || gd.Tok != token.CONST {
+			continue
+		}
+		for _, sp := range gd.Specs {
+			vs := sp.(*ast.ValueSpec)
+			for i, n := range vs.Names {
+				if i < len(vs.Values) {
+					if bl, ok := vs.Values[i].(*ast.BasicLit); ok && bl.Kind == token.INT {
+						if v, err := strconv.ParseInt(bl.Value, 0, 64); err == nil {
+							out[n.Name] = v
+						}
+					}
+				}
+			}
+		}
+	}
+	return out
 }
 
 func (d *dsl) limit(e ast.Expr) string {
@@ -178,7 +203,7 @@ func (d *dsl) limit(e ast.Expr) string {
 					}
 				case "RecursionLimitDepth":
 					if len(c.Args) == 1 {
-						return "(Limit.depth " + leanInt(intExpr(c.Args[0], nil)) + ")"
+						return "(Limit.depth " + leanInt(intExpr(c.Args[0], d.consts)) + ")"
 					}
 				}
 			}
@@ -293,7 +318,7 @@ func (d *dsl) spec(e ast.Expr) string {
 // maxDepthSelector in init()
 func extractSpec(f *ast.File) string {
 	fd := findFunc(f, "init")
-	d := &dsl{vars: map[string]ast.Expr{}}
+	d := &dsl{vars: map[string]ast.Expr{}, consts: intConsts(f)}
 	result := ""
 	for _, st := range fd.Body.List {
 		as, ok := st.(*ast.AssignStmt)
